@@ -597,29 +597,46 @@ def scriptCode143 (txin : TxIn) (redeem witnessScript : Option Script) : Option 
       let spk ← txin.scriptPubkey
       p2pkhOfSecond spk
 
-/-- Tx.sig_hash_bip143 up to the final hash256 (with F05b repaired) -/
-def sigHashBip143Pre (cfg : Cfg) (H : Hashes) (o : TxObj) (i : Nat) (redeem witnessScript : Option Script)
-    (ht : Nat) : Option (Bytes × TxObj) := do
-  let txin ← o.tx.ins[i]?
-  let v ← natToLE o.tx.version Gen.bip143VersionW
-  let (hp, o) ← if !acp ht then hashPrevouts cfg H o else some (zero32, o)
-  let (hs, o) ← if !acp ht ∧ base ht ≠ Gen.sighashSingle ∧ base ht ≠ Gen.sighashNone then hashSequence cfg H o
-                else some (zero32, o)
+/-- hashPrevouts item of sig_hash_bip143 (zero bytes for ANYONECANPAY; F05b repaired) -/
+def bip143Prevouts (cfg : Cfg) (H : Hashes) (o : TxObj) (ht : Nat) : Option (Bytes × TxObj) :=
+  if !acp ht then hashPrevouts cfg H o else some (zero32, o)
+
+/-- hashSequence item -/
+def bip143Sequence (cfg : Cfg) (H : Hashes) (o : TxObj) (ht : Nat) : Option (Bytes × TxObj) :=
+  if !acp ht ∧ base ht ≠ Gen.sighashSingle ∧ base ht ≠ Gen.sighashNone then hashSequence cfg H o
+  else some (zero32, o)
+
+/-- hashOutputs item -/
+def bip143Outputs (cfg : Cfg) (H : Hashes) (o : TxObj) (i ht : Nat) : Option (Bytes × TxObj) :=
+  if base ht ≠ Gen.sighashSingle ∧ base ht ≠ Gen.sighashNone then hashOutputs cfg H o
+  else if base ht = Gen.sighashSingle ∧ i < o.tx.outs.length then
+    (match o.tx.outs[i]? with
+     | some out => out.serialize.map fun b => (H.hash256 b, o)
+     | none => none)
+  else some (zero32, o)
+
+/-- outpoint ‖ scriptCode ‖ value ‖ nSequence of the input being signed -/
+def bip143Input (txin : TxIn) (redeem witnessScript : Option Script) : Option Bytes := do
   let ix ← natToLE txin.prevIndex Gen.bip143IndexW
   let code ← scriptCode143 txin redeem witnessScript
   let codeSer ← Script.serialize code
   let value ← txin.value
   let val ← natToLE value Gen.bip143AmountW
   let sq ← natToLE txin.sequence Gen.sequenceSerW
-  let (ho, o) ← if base ht ≠ Gen.sighashSingle ∧ base ht ≠ Gen.sighashNone then hashOutputs cfg H o
-                else if base ht = Gen.sighashSingle ∧ i < o.tx.outs.length then
-                  (match o.tx.outs[i]? with
-                   | some out => out.serialize.map fun b => (H.hash256 b, o)
-                   | none => none)
-                else some (zero32, o)
+  pure (txin.prevTx.reverse ++ ix ++ codeSer ++ val ++ sq)
+
+/-- Tx.sig_hash_bip143 up to the final hash256 (with F05b repaired) -/
+def sigHashBip143Pre (cfg : Cfg) (H : Hashes) (o : TxObj) (i : Nat) (redeem witnessScript : Option Script)
+    (ht : Nat) : Option (Bytes × TxObj) := do
+  let txin ← o.tx.ins[i]?
+  let v ← natToLE o.tx.version Gen.bip143VersionW
+  let (hp, o) ← bip143Prevouts cfg H o ht
+  let (hs, o) ← bip143Sequence cfg H o ht
+  let inp ← bip143Input txin redeem witnessScript
+  let (ho, o) ← bip143Outputs cfg H o i ht
   let lt ← natToLE o.tx.locktime Gen.locktimeSerW
   let h ← natToLE ht Gen.bip143HashTypeW
-  pure (v ++ hp ++ hs ++ txin.prevTx.reverse ++ ix ++ codeSer ++ val ++ sq ++ ho ++ lt ++ h, o)
+  pure (v ++ hp ++ hs ++ inp ++ ho ++ lt ++ h, o)
 
 /-- Tx.sig_hash_bip143 -/
 def sigHashBip143 (cfg : Cfg) (H : Hashes) (o : TxObj) (i : Nat) (redeem witnessScript : Option Script)
@@ -654,6 +671,55 @@ def tapLeafHash (cfg : Cfg) (sha256 : Bytes → Bytes) (xonlyOK : Bytes → Bool
   let vb ← byteOf (ver.toNat &&& 0xFE)
   pure (taggedHash sha256 Gen.tapLeafTag (vb ++ ser))
 
+/-- sha_prevouts ‖ sha_amounts ‖ sha_scriptpubkeys ‖ sha_sequences unless ANYONECANPAY -/
+def bip341Mid (cfg : Cfg) (H : Hashes) (o : TxObj) (ht : Nat) : Option (Bytes × TxObj) :=
+  if !acp ht then do
+    let (a, o) ← shaPrevouts cfg H o
+    let (b, o) ← shaAmounts cfg H o
+    let (c, o) ← shaScriptPubkeys cfg H o
+    let (d, o) ← shaSequences cfg H o
+    pure (a ++ b ++ c ++ d, o)
+  else some ([], o)
+
+/-- sha_outputs unless NONE / SINGLE -/
+def bip341Outs (cfg : Cfg) (H : Hashes) (o : TxObj) (ht : Nat) : Option (Bytes × TxObj) :=
+  if base ht ≠ Gen.sighashNone ∧ base ht ≠ Gen.sighashSingle then shaOutputs cfg H o else some ([], o)
+
+/-- the input's own data (ANYONECANPAY) or its index -/
+def bip341Input (txin : TxIn) (i ht : Nat) : Option Bytes :=
+  if acp ht then do
+    let ix ← natToLE txin.prevIndex Gen.bip341PrevIndexW
+    let value ← txin.value
+    let val ← natToLE value Gen.bip341AmountW
+    let spk ← txin.scriptPubkey
+    let spkSer ← Script.serialize spk
+    let sq ← natToLE txin.sequence Gen.sequenceSerW
+    pure (txin.prevTx.reverse ++ ix ++ val ++ spkSer ++ sq)
+  else natToLE i Gen.bip341InputIndexW
+
+/-- `sha256(encode_varstr(witness[-1]))` when `annex` -/
+def bip341Annex (H : Hashes) (txin : TxIn) (annex : Bool) : Option Bytes :=
+  if annex then do
+    let last ← fromEnd txin.witness.items 1
+    let e ← encodeVarstr last
+    pure (H.sha256 e)
+  else some []
+
+/-- `sha256(self.tx_outs[input_index].serialize())` for SINGLE (IndexError without that output) -/
+def bip341Single (H : Hashes) (t : Tx) (i ht : Nat) : Option Bytes :=
+  if base ht = Gen.sighashSingle then do
+    let out ← t.outs[i]?
+    let b ← out.serialize
+    pure (H.sha256 b)
+  else some []
+
+/-- the BIP342 extension when `ext_flag == 1` -/
+def bip341Ext (cfg : Cfg) (H : Hashes) (xonlyOK : Bytes → Bool) (txin : TxIn) (extFlag : Nat) : Option Bytes :=
+  if extFlag = 1 then do
+    let lh ← tapLeafHash cfg H.sha256 xonlyOK txin.witness
+    pure (lh ++ Gen.bip342Ext)
+  else some []
+
 /-- Tx.sig_hash_bip341 message before the tagged hash (with F05c repaired) -/
 def sigHashBip341Pre (cfg : Cfg) (H : Hashes) (xonlyOK : Bytes → Bool) (o : TxObj) (i extFlag ht : Nat) :
     Option (Bytes × TxObj) := do
@@ -661,40 +727,14 @@ def sigHashBip341Pre (cfg : Cfg) (H : Hashes) (xonlyOK : Bytes → Bool) (o : Tx
   let hb ← byteOf ht
   let v ← natToLE o.tx.version Gen.bip341VersionW
   let lt ← natToLE o.tx.locktime Gen.locktimeSerW
-  let (mid, o) ← if !acp ht then do
-                    let (a, o) ← shaPrevouts cfg H o
-                    let (b, o) ← shaAmounts cfg H o
-                    let (c, o) ← shaScriptPubkeys cfg H o
-                    let (d, o) ← shaSequences cfg H o
-                    pure (a ++ b ++ c ++ d, o)
-                 else some ([], o)
-  let (so, o) ← if base ht ≠ Gen.sighashNone ∧ base ht ≠ Gen.sighashSingle then shaOutputs cfg H o
-                else some ([], o)
+  let (mid, o) ← bip341Mid cfg H o ht
+  let (so, o) ← bip341Outs cfg H o ht
   let annex ← txin.witness.hasAnnex cfg
   let st ← byteOf (extFlag * 2 + (if annex then 1 else 0))
-  let inp ← if acp ht then do
-              let ix ← natToLE txin.prevIndex Gen.bip341PrevIndexW
-              let value ← txin.value
-              let val ← natToLE value Gen.bip341AmountW
-              let spk ← txin.scriptPubkey
-              let spkSer ← Script.serialize spk
-              let sq ← natToLE txin.sequence Gen.sequenceSerW
-              pure (txin.prevTx.reverse ++ ix ++ val ++ spkSer ++ sq)
-            else natToLE i Gen.bip341InputIndexW
-  let an ← if annex then do
-              let last ← fromEnd txin.witness.items 1
-              let e ← encodeVarstr last
-              pure (H.sha256 e)
-           else some []
-  let single ← if base ht = Gen.sighashSingle then do
-                  let out ← o.tx.outs[i]?
-                  let b ← out.serialize
-                  pure (H.sha256 b)
-               else some []
-  let ext ← if extFlag = 1 then do
-               let lh ← tapLeafHash cfg H.sha256 xonlyOK txin.witness
-               pure (lh ++ Gen.bip342Ext)
-            else some []
+  let inp ← bip341Input txin i ht
+  let an ← bip341Annex H txin annex
+  let single ← bip341Single H o.tx i ht
+  let ext ← bip341Ext cfg H xonlyOK txin extFlag
   pure (Gen.bip341Epoch ++ hb ++ v ++ lt ++ mid ++ so ++ st ++ inp ++ an ++ single ++ ext, o)
 
 /-- Tx.sig_hash_bip341 -/
